@@ -98,6 +98,8 @@ func (ge *gen) make(kind string, oracle bool) Case {
 		return ge.schnorrE(oracle)
 	case "ecmneg":
 		return ge.ecmNeg(oracle)
+	case "tweakadd":
+		return ge.tweakAdd(oracle)
 	default:
 		return ge.hmac(oracle)
 	}
@@ -411,11 +413,8 @@ func (ge *gen) ecdsa(oracle bool) Case {
 			p2 = nil
 		}
 		return mk("ecdsa", "pk-format", oracle, p2, sig, msg)
-	case 26: // result at infinity: m = -r*d  (u1 + u2 d = 0)
-		mm := new(big.Int).Mul(r, d)
-		mm.Neg(mm)
-		mm.Mod(mm, refN)
-		return mk("ecdsa", "infinity", oracle, pk, sig, be32(mm))
+	case 26: // result at infinity: m = -r*d  (u1 + u2 d = 0), r = x of an operand of the sum (inf.go)
+		return ge.ecdsaInfinity(oracle, d, Q, pk, r, s)
 	case 27: // message of another length (SetBytes takes any length)
 		l := g.Pick(0, 1, 20, 31, 33, 40, 64)
 		mb := g.Bytes(l)
@@ -623,6 +622,8 @@ func (ge *gen) schnorr(oracle bool) Case {
 	case 21:
 		_ = rv
 		return mk("schnorr", "swapped", oracle, pk, append(append([]byte{}, sig[32:]...), sig[:32]...), msg)
+	case 22: // s·G - e·P = infinity with r = x of an operand (inf.go)
+		return ge.schnorrInfinity(oracle, sk, msg)
 	default:
 		return mk("schnorr", "random", oracle, g.Bytes(32), g.Bytes(64), msg)
 	}
@@ -703,14 +704,9 @@ func (ge *gen) tweak(oracle bool) Case {
 		default:
 			return mk("tweak", "hash-len", oracle, qx, base, hash[:31], par)
 		}
-	case 15: // P + tG = infinity: t = n - d' where lift_x(P) = d'G
-		dd := new(big.Int).Set(d)
-		if P0.y.Bit(0) == 1 {
-			dd.Sub(refN, d)
-		}
-		return mk("tweak", "infinity", oracle, make([]byte, 32), base, be32(new(big.Int).Sub(refN, dd)), par)
-	case 16: // base with the odd-y point's x: lift_x picks the even one — still valid
-		return mk("tweak", "valid", oracle, qx, base, hash, par)
+	case 15, 16: // P + tG = infinity: t = n - d' where lift_x(P) = d'G; the claim ranges over every
+		// coordinate an implementation could have left behind (inf.go)
+		return ge.tweakInfinity(oracle, d)
 	case 17: // doubling: t = d' (P + P)
 		dd := new(big.Int).Set(d)
 		if P0.y.Bit(0) == 1 {
